@@ -33,6 +33,8 @@ Inductive mev :=
 | EvStore (v : var) (o : ord) (a : N)
 | EvSwap (v : var) (o : ord) (a r : N)
 | EvCas (v : var) (o f : ord) (a b r : N) (ok : bool)
+| EvCasW (v : var) (o f : ord) (a b r : N) (ok : bool)   (* compare_exchange_weak (HRwLock only) *)
+| EvFsub (v : var) (o : ord) (a r : N)                   (* fetch_sub (HRwLock only) *)
 | EvFor (v : var) (o : ord) (a r : N)
 | EvFand (v : var) (o : ord) (clr r : N)      (* operand = !clr *)
 | EvPark
@@ -370,6 +372,9 @@ Definition mev_eqb (a b : mev) : bool :=
   | EvSwap v o x r, EvSwap v' o' x' r' => var_eqb v v' && ord_eqb o o' && N.eqb x x' && N.eqb r r'
   | EvCas v o f x y r k, EvCas v' o' f' x' y' r' k' =>
       var_eqb v v' && ord_eqb o o' && ord_eqb f f' && N.eqb x x' && N.eqb y y' && N.eqb r r' && Bool.eqb k k'
+  | EvCasW v o f x y r k, EvCasW v' o' f' x' y' r' k' =>
+      var_eqb v v' && ord_eqb o o' && ord_eqb f f' && N.eqb x x' && N.eqb y y' && N.eqb r r' && Bool.eqb k k'
+  | EvFsub v o x r, EvFsub v' o' x' r' => var_eqb v v' && ord_eqb o o' && N.eqb x x' && N.eqb r r'
   | EvFor v o x r, EvFor v' o' x' r' => var_eqb v v' && ord_eqb o o' && N.eqb x x' && N.eqb r r'
   | EvFand v o x r, EvFand v' o' x' r' => var_eqb v v' && ord_eqb o o' && N.eqb x x' && N.eqb r r'
   | EvPark, EvPark | EvYield, EvYield | EvSpin, EvSpin => true
